@@ -85,7 +85,15 @@ struct PropT : PropBase {
             Case c = *gen;
             if (first_fail_at) {
                 shrink_evals++;
-                if (shrink_evals > envl("VERIF_MAX_SHRINK_EVALS", 400) || mono_seconds() - first_fail_at > envl("VERIF_MAX_SHRINK_SECONDS", 240)) return;
+                if (shrink_evals > envl("VERIF_MAX_SHRINK_EVALS", 400) || mono_seconds() - first_fail_at > envl("VERIF_MAX_SHRINK_SECONDS", 240)) {
+                    // generating shrink candidates alone can be expensive (cases with tens of thousands of draws): once the budget is
+                    // well exceeded, stop the process; the failure and its smallest replay file are already in the report
+                    if (mono_seconds() - first_fail_at > 2 * envl("VERIF_MAX_SHRINK_SECONDS", 240)) {
+                        fprintf(stderr, "shrink budget exhausted for %s, stopping with the smallest failing case found so far\n", name.c_str());
+                        VR.flush(); fflush(stdout); fflush(stderr); _exit(1);
+                    }
+                    return;
+                }
             }
             Outcome o = guarded(c);
             if (!o.ok() && !first_fail_at) first_fail_at = mono_seconds();
